@@ -236,11 +236,15 @@ pub(crate) fn resolve_scan_paths(paths: &[PathBuf], include: &[String]) -> Vec<P
 /// both would count its files, and report its violations, twice (`check . src`, `check src src/gen`).
 fn drop_nested_targets(targets: Vec<PathBuf>) -> Vec<PathBuf> {
     fn covers(outer: &Path, inner: &Path) -> bool {
+        // A spelling with `..` names a directory only the file system can resolve
+        // (`src/../lib` is not below `src`): such a target relates to its own repetition only.
+        let has_parent_dir =
+            |p: &Path| p.components().any(|c| matches!(c, std::path::Component::ParentDir));
+        if has_parent_dir(outer) || has_parent_dir(inner) {
+            return outer == inner;
+        }
         if outer == Path::new(".") {
-            return inner.is_relative()
-                && !inner
-                    .components()
-                    .any(|c| matches!(c, std::path::Component::ParentDir));
+            return inner.is_relative();
         }
         inner.starts_with(outer)
     }
